@@ -502,8 +502,6 @@ def build_defaults(env):
         "fs": {},
         "ttymap": {},
     }
-    for op in ("readlink", "listdir", "stat"):
-        pass
     if fl in BSDS:
         R = seq(1100 + k, 25)
         R[1] = C("SSLEEP")
